@@ -129,7 +129,7 @@ func coqUpload(p *program, o *observation) (string, bool) {
 	}
 	addTab("")
 	for _, f := range sh.MPFiles {
-		files = append(files, fmt.Sprintf("mkFile %s %s %s %s false", hk.CoqStr(f.Param), hk.CoqStr(f.Name), coqKind[f.Kind], hk.CoqStr(f.Content)))
+		files = append(files, fmt.Sprintf("mkFile %s %s %s %s %s", hk.CoqStr(f.Param), hk.CoqStr(f.Name), coqKind[f.Kind], hk.CoqStr(f.Content), hk.CoqBool(p.Exec > 0))) // used by an earlier execution
 		addTab(f.Content)
 	}
 	var obs []string
